@@ -4,10 +4,12 @@ import types
 from collections import OrderedDict
 
 _ADDR = re.compile(r'0x[0-9a-fA-F]{6,}')
+# reprs truncated by glom's trace formatter can cut an address anywhere: ' at 0x7f3... (len=3)'
+_ADDR_CUT = re.compile(r' at 0(x[0-9a-fA-F]*)?(?=\.\.\.)')
 
 
 def norm_text(s):
-    return _ADDR.sub('0x?', s)
+    return _ADDR.sub('0x?', _ADDR_CUT.sub(' at 0x?', s))
 
 
 def short(x, n=160):
@@ -191,7 +193,7 @@ def _slots_of(cls):
     s = cls.__dict__.get('__slots__', ())
     if isinstance(s, str):
         s = (s,)
-    return [x for x in s if x not in ('__dict__', '__weakref__', '_k')]
+    return [x for x in s if x not in ('__dict__', '__weakref__', '_k', '_sid')]
 
 
 def _inst_dict(v):
@@ -224,3 +226,18 @@ def snap_diff(a, b):
         elif a['ids'].get(nid) != b['ids'].get(nid):
             out.append([nid, 'identity changed'])
     return out[:6]
+
+
+def snapshot_by_id(root):
+    """{id(container): [type name, content]} with children referenced by id (identity-stable
+    encoding: inserting or removing a subtree does not renumber the other nodes)"""
+    snap = snapshot(root)
+    ids = snap['ids']
+
+    def enc(c):
+        if isinstance(c, list):
+            if len(c) == 2 and c[0] == 'n' and isinstance(c[1], int):
+                return ['i', ids[c[1]]]
+            return [enc(x) for x in c]
+        return c
+    return {ids[nid]: [tn, enc(content)] for nid, (tn, content) in snap['nodes'].items()}
